@@ -125,6 +125,7 @@ type tyDecl struct {
 	pkg    int
 	name   string
 	kind   string // struct | iface
+	file2  bool   // target package only: declared (with its methods) in the second file y.go
 	embeds []embDecl
 	meths  []methDecl
 }
@@ -149,8 +150,26 @@ type program struct {
 		pkg   int
 		alias string // "" = plain
 	}
+	// import specs of the target package's SECOND file (y.go); LoadPackages is handed x.go, so
+	// the ImportHandler never sees these
+	imps2 []struct {
+		pkg   int
+		alias string
+	}
 	tys  []*tyDecl
 	defs []defDecl
+}
+
+func (p *program) hasFile2() bool {
+	if len(p.imps2) > 0 {
+		return true
+	}
+	for _, t := range p.tys {
+		if t.pkg == 0 && t.file2 {
+			return true
+		}
+	}
+	return false
 }
 
 func (p *program) pkgByIdx(i int) *pkgDecl {
@@ -193,6 +212,28 @@ func (p *program) addLine(ws []string) error {
 			pkg   int
 			alias string
 		}{i, al})
+	case ws[0] == "imp2" && len(ws) == 3:
+		i, err := atoi(ws[1])
+		if err != nil {
+			return err
+		}
+		al := ws[2]
+		if al == "-" {
+			al = ""
+		}
+		p.imps2 = append(p.imps2, struct {
+			pkg   int
+			alias string
+		}{i, al})
+	case ws[0] == "in2" && len(ws) == 2:
+		t := p.ty(0, ws[1])
+		if t == nil {
+			return errors.New("in2: unknown type")
+		}
+		if len(t.meths) > 0 || len(t.embeds) > 0 {
+			return errors.New("in2: must directly follow the ty line")
+		}
+		t.file2 = true
 	case ws[0] == "ty" && len(ws) == 4:
 		i, err := atoi(ws[1])
 		if err != nil {
@@ -254,9 +295,10 @@ func (p *program) addLine(ws []string) error {
 const anchor = "XAnchor"
 
 type printer struct {
-	prog *program
-	from int
-	used map[int]bool
+	prog  *program
+	from  int
+	file2 bool // printing the target package's second file
+	used  map[int]bool
 }
 
 func (pr *printer) qual(pkg int) string {
@@ -265,7 +307,11 @@ func (pr *printer) qual(pkg int) string {
 	}
 	pr.used[pkg] = true
 	if pr.from == 0 {
-		for _, im := range pr.prog.imps {
+		imps := pr.prog.imps
+		if pr.file2 {
+			imps = pr.prog.imps2
+		}
+		for _, im := range imps {
 			if im.pkg == pkg {
 				if im.alias != "" {
 					return im.alias + "."
@@ -324,16 +370,20 @@ func (pr *printer) sig(t *tyExpr) string {
 	return "(" + strings.Join(ps, ", ") + ")" + out
 }
 
-func (p *program) source(pkg int) (string, error) {
+// source prints one file: the only file of a sibling package, or x.go (file2 = false) / y.go
+// (file2 = true) of the target package.
+func (p *program) source(pkg int, file2 bool) (string, error) {
 	pd := p.pkgByIdx(pkg)
 	if pd == nil {
 		return "", errors.New("no such package")
 	}
-	pr := &printer{prog: p, from: pkg, used: map[int]bool{}}
+	pr := &printer{prog: p, from: pkg, file2: file2, used: map[int]bool{}}
 	var b strings.Builder
-	fmt.Fprintf(&b, "type %s int\n\n", anchor)
+	if !file2 {
+		fmt.Fprintf(&b, "type %s int\n\n", anchor)
+	}
 	for _, d := range p.defs {
-		if d.pkg != pkg {
+		if d.pkg != pkg || file2 {
 			continue
 		}
 		switch d.kind {
@@ -352,7 +402,7 @@ func (p *program) source(pkg int) (string, error) {
 		}
 	}
 	for _, t := range p.tys {
-		if t.pkg != pkg {
+		if t.pkg != pkg || t.file2 != file2 {
 			continue
 		}
 		if t.kind == "iface" {
@@ -386,7 +436,11 @@ func (p *program) source(pkg int) (string, error) {
 	var h strings.Builder
 	fmt.Fprintf(&h, "package %s\n\n", pd.name)
 	if pkg == 0 {
-		for _, im := range p.imps {
+		imps := p.imps
+		if file2 {
+			imps = p.imps2
+		}
+		for _, im := range imps {
 			q := p.pkgByIdx(im.pkg)
 			if q == nil {
 				return "", errors.New("import of undeclared package")
@@ -472,8 +526,13 @@ func (g *gcImpl) load() error {
 		g.Invalid++
 		if os.Getenv("VERIF_DEBUG") != "" {
 			fmt.Fprintln(os.Stderr, "invalid program:", err)
-			if src, e := g.prog.source(0); e == nil {
+			if src, e := g.prog.source(0, false); e == nil {
 				fmt.Fprintln(os.Stderr, src)
+			}
+			if g.prog.hasFile2() {
+				if src, e := g.prog.source(0, true); e == nil {
+					fmt.Fprintln(os.Stderr, "---- y.go\n"+src)
+				}
 			}
 		}
 	}
@@ -500,7 +559,7 @@ func (g *gcImpl) doLoad() error {
 		if !strings.HasPrefix(pd.path, "scratch/") {
 			return errors.New("package outside the scratch module")
 		}
-		src, err := g.prog.source(pd.idx)
+		src, err := g.prog.source(pd.idx, false)
 		if err != nil {
 			return err
 		}
@@ -514,6 +573,17 @@ func (g *gcImpl) doLoad() error {
 		}
 		if pd.idx == 0 {
 			target = f
+			if g.prog.hasFile2() {
+				// the second file of the target package: its imports are invisible to the handler,
+				// which is built from x.go alone
+				src2, err := g.prog.source(0, true)
+				if err != nil {
+					return err
+				}
+				if err := os.WriteFile(filepath.Join(d, "y.go"), []byte(src2), 0o644); err != nil {
+					return err
+				}
+			}
 		}
 	}
 	g.Loads++
@@ -669,6 +739,12 @@ func (g *gcImpl) build() string {
 	os.Remove(filepath.Join(tdir, "rendered_verif.go"))
 	if err == nil {
 		return "ok"
+	}
+	for _, q := range quals {
+		// two printed import lines bind one name
+		if regexp.MustCompile(`(^|[^A-Za-z0-9_])` + regexp.QuoteMeta(q) + ` redeclared`).MatchString(string(out)) {
+			return "fail:import-name-twice"
+		}
 	}
 	for _, q := range quals {
 		// the import line printed for a qualifier does not bind that qualifier
